@@ -127,6 +127,12 @@ func (d *DefaultClientDispatcher) Start() {
 	defer d.mutex.Unlock()
 	d.requestChannel = make(chan bool, 1)
 	d.timer = time.NewTimer(defaultTimeoutTick) // Default to 24 hours tick
+	// Start from a clean state, in case the dispatcher was stopped while paused or while a request was completing
+	d.paused = false
+	select {
+	case <-d.readyForDispatch:
+	default:
+	}
 	go d.messagePump()
 }
 
@@ -146,7 +152,9 @@ func (d *DefaultClientDispatcher) Stop() {
 	d.mutex.Lock()
 	defer d.mutex.Unlock()
 	close(d.requestChannel)
-	// TODO: clear pending requests?
+	// Pending requests are discarded along with the queue: a stale pending request would
+	// prevent any request sent after a restart from ever being set as pending.
+	d.pendingRequestState.ClearPendingRequests()
 }
 
 func (d *DefaultClientDispatcher) SetNetworkClient(client ws.Client) {
